@@ -2,7 +2,7 @@
 C11 driver: runs the model on the line protocol of `harness/src/bin/c11.rs`.
 
   def NAME <kind> <args>      (the *resolved* definitions printed by the harness)  -> `def NAME`
-  eq A B    -> `eq impl=<b> spec=<b> old=<b> wf=<b> nonan=<b> keys=<b> shared=<b>`
+  eq A B    -> `eq impl=<b> spec=<b> old=<b> wf=<b> nonan=<b> keys=<b> sig=<b> shared=<b>`
   hq A B    -> `hq impl=<b> old=<b>`
   key A B   -> `key impl=<b> spec=<b>`
   cfg legacy|fixed|code       choose the configuration used for `impl` (default: `codeCfg`, generated)
@@ -16,6 +16,8 @@ structure DState where
   names : List (String × Nat) := []
   graph : Graph := []
   cfg : Cfg := codeCfg
+  /-- the guards of the current graph (wf, nonan, keys, sig), computed once per graph -/
+  guards : Option String := none
   cm : Coll.M Int Int := []
   cs : Coll.S Int := []
   cl : List Int := []
@@ -55,7 +57,13 @@ def parseNode (s : DState) (kind : String) (args : List String) : Option Node :=
   | "rat", [n, d] => do let n ← n.toInt?; let d ← d.toNat?; pure (.leaf (.rat n d))
   | "bytes", [x] => some (.leaf (.bytes (parseCps x)))
   | "bytes", [] => some (.leaf (.bytes []))
-  | "list", xs => (lookupAllNames s xs).map .list
+  | "list", xs =>
+      -- `list e1 .. | store idx next`: the part after `|` is what the short cuts of the real list see
+      let (es, sg) := xs.span (· ≠ "|")
+      let sig : Option ListSig := match sg with
+        | [_, a, b, c] => do let a ← a.toNat?; let b ← b.toNat?; let c ← c.toNat?; pure ⟨a, b, c⟩
+        | _ => none
+      (lookupAllNames s es).map (Node.list · sig)
   | "pair", [a, b] => do let a ← lookupName s a; let b ← lookupName s b; pure (.pair a b)
   | "vec", xs => (lookupAllNames s xs).map .vec
   | "mvec", xs => (lookupAllNames s xs).map .mvec
@@ -147,17 +155,26 @@ def line (s : DState) (l : String) : DState × String :=
   | ["reset"] => ({ cfg := s.cfg }, "reset")
   | ["cfg", "legacy"] => ({ s with cfg := Cfg.legacy }, "cfg legacy")
   | ["cfg", "fixed"] => ({ s with cfg := Cfg.fixed }, "cfg fixed")
+  | ["cfg", "k11j"] => ({ s with cfg := Cfg.k11j }, "cfg k11j")
   | ["cfg", "code"] => ({ s with cfg := codeCfg }, "cfg code")
+  | ["def", name, "alias", other] =>
+      -- the real value IS the list `other` (same head cell): the same node
+      match lookupName s other with
+      | some i => ({ s with names := (name, i) :: s.names }, s!"def {name}")
+      | none => (s, s!"bad def {name}")
   | "def" :: name :: kind :: args =>
       match parseNode s kind args with
       | some n =>
-          ({ s with names := (name, s.graph.length) :: s.names, graph := s.graph ++ [n] }, s!"def {name}")
+          ({ s with names := (name, s.graph.length) :: s.names, graph := s.graph ++ [n], guards := none }, s!"def {name}")
       | none => (s, s!"bad def {name}")
   | ["eq", a, b] =>
       match lookupName s a, lookupName s b with
       | some a, some b =>
           let g := s.graph
-          (s, s!"eq impl={showB (eqImpl s.cfg g a b)} spec={showB (eqSpec g a b)} old={showB (eqImpl Cfg.legacy g a b)} wf={showB (wfB g)} nonan={showB (noNaNB g)} keys={showB (keysDistinctB g)} shared={showB (!noSharingB g a b)}")
+          let gd := match s.guards with
+            | some x => x
+            | none => s!"wf={showB (wfB g)} nonan={showB (noNaNB g)} keys={showB (keysDistinctB g)} sig={showB (listSigB g)}"
+          ({ s with guards := some gd }, s!"eq impl={showB (eqImpl s.cfg g a b)} spec={showB (eqSpec g a b)} old={showB (eqImpl Cfg.legacy g a b)} {gd} shared={showB (!noSharingB g a b)}")
       | _, _ => (s, "bad name")
   | ["hq", a, b] =>
       match lookupName s a, lookupName s b with
